@@ -15,7 +15,7 @@ def dec_line(code):
 class Prop(SeqProp):
     pid = "C15"
     anchors = ["windpyutils/buffers.py", "windpyutils/structures/circular_buffer.py"]
-    quick_cases = 600
+    quick_cases = 2400
     thorough_cases = 6000
     rule = ("Buffer/PrintBuffer: random permutations of 0..n-1 (n<=12) with drain points / flush / clear / re-put of an emitted "
             "serial interleaved (thorough: all permutations up to n=6 with all drain-point subsets, exhaustive); CircularBuffer: "
